@@ -462,6 +462,7 @@ def add_connection(u):
            post_rewrite=[('use crate::selection::calculate_quality_multiplier;', '', 1)],
            ensures=[C('C12.select.get_cached_quality_multiplier.writes_only_the_cache', 'final(self).same_except_qc(old(self))'),
                     'r == final(self).quality_cache.multiplier',
+                    'q_ok(old(self).quality_cache.multiplier) ==> q_ok(final(self).quality_cache.multiplier)',
                     C('C11.select.get_cached_quality_multiplier.idempotent_at_same_time', 'sub_sat(current_time_ms, old(self).quality_cache.last_calculated_ms) < 50 ==> final(self).quality_cache == old(self).quality_cache'),
                     'sub_sat(current_time_ms, old(self).quality_cache.last_calculated_ms) >= 50 ==> final(self).quality_cache.last_calculated_ms == current_time_ms && final(self).quality_cache.multiplier == spec_quality(old(self), current_time_ms)']))
     F(u.fn(CONN, 'should_attempt_reconnect', impl='SrtlaConnection', sub='reconn', ret='r', ensures=['r == spec_should_reconnect(&self.reconnection, now_ms)']))
@@ -526,11 +527,13 @@ def add_selection(u):
              S.ANY_UNCONSTRAINED_HELPER(u),
              u.fn(E, 'select_connection', sub='select', ret='r', qual='enhanced::select_connection',
                   pre_rewrite=[(re.compile(r'let any_unconstrained = conns\.iter\(\)\.any\(\|c\| \{.*?\}\);', re.S),
-                                'let any_unconstrained = any_unconstrained_helper(conns, current_time_ms);', 1)],
+                                'let any_unconstrained = any_unconstrained_helper(conns, current_time_ms);', 1),
+                               ('c.get_score() as f64', 'cast_i32_f64(c.get_score())', 1)],
                   requires=[S.WF_SEL('old(conns)')], ensures=S.ENH_ENSURES,
                   loops={0: dict(inv=S.ENH_INV, dec='conns.len() - i_nx')},
                   splices=S.ENH_SPLICES)]
     u.add(mod_block('enhanced', '\n'.join(ebody), uses='use super::*; broadcast use super::fax::group_f64_total;'))
+    u.add(S.GATE_PREDS)
     u.add(S.GATE_HELPER(u))
     u.add(u.fn(K + 'selection/mod.rs', 'apply_stall_gate', sub='select',
                pre_rewrite=[(re.compile(r'let any_healthy = conns\.iter\(\)\.any\(\|c\| \{.*?\}\);', re.S),
